@@ -5,3 +5,4 @@ pub mod gen;
 pub mod model;
 pub mod props;
 pub mod sess;
+pub mod textgen;
